@@ -4,7 +4,12 @@ from checks.durable_check import replay_execution, run_durable
 
 L = lambda p: {"k": "log", "pt": p}   # noqa: E731
 
+LV = lambda p, lvl: {"k": "log", "pt": p, "lvl": lvl}   # noqa: E731
+
 PROGS = [
+    # every level of the logger (debug / warning / error / exception as well as info) is replay-aware
+    {"nodes": [LV("a", "exception"), {"k": "step"}, LV("b", "error"), LV("b2", "warning"), {"k": "wait"}, LV("c", "debug"), {"k": "step"},
+               LV("d", "exception"), {"k": "wait"}, LV("e", "exception")]},
     {"nodes": [L("a"), {"k": "step"}, L("b"), {"k": "wait"}, L("c"), {"k": "step"}, L("d"), {"k": "wait"}, L("e")]},
     {"nodes": [L("a"), {"k": "child", "body": [L("x"), {"k": "step"}, L("y")]}, L("b"), {"k": "wait"}, L("c"), {"k": "step"}, L("d")]},
     {"nodes": [L("a"), {"k": "step", "fail": -1, "max": 1, "caught": True}, L("b"), {"k": "wait"}, L("c")]},
